@@ -29,6 +29,9 @@ def gen_cases(tier, seed):
     yield {"kind": "big", "size": 1 << 20, "byte": 0xFF}
     yield {"kind": "big", "size": (1 << 20) + 3, "byte": 0x80}
     yield {"kind": "big", "size": 17 * (1 << 20), "byte": 0xFF}     # byte sum 4 545 576 960 > 2^32
+    # payloads beyond the host's own 1 MiB maximum, through the real send path: a device that announces a larger maxdata, a command longer than 1 MiB
+    for j, impl in enumerate(("sync", "async")):
+        yield {"kind": "huge", "impl": impl, "maxdata": 4 * (1 << 20), "push": 5 * (1 << 20) + 17, "cmd": (1 << 20) + 10 + j}
     if tier == "thorough":
         yield {"kind": "big", "size": 17 * (1 << 20) + 1, "byte": 0xFE}
         yield {"kind": "big", "size": 33 * (1 << 20), "byte": 0xFF}   # > 2 * 2^32
@@ -132,6 +135,32 @@ def run_case(case):
         stats["sum_exceeds_2_32"] = int(case["byte"] * case["size"] >= (1 << 32))
         return {"sig": "big|%d|%d" % (case["size"], case["byte"]), "violations": viol[:5], "stats": stats,
                 "sample": {"kind": "big", "size": case["size"], "byte": case["byte"], "raw_sum": case["byte"] * case["size"]}, "evaluations": 2}
+    if case["kind"] == "huge":
+        import io
+        from vlib import session as session_mod, simdev
+        sim = simdev.SimDevice(maxdata=case["maxdata"], remote_ids="random")
+        sess = session_mod.Session(case["impl"], sim=sim)
+        try:
+            outs = [sess.call("connect")]
+            content = scen.blob("huge", case["push"])
+            outs.append(sess.call("push", io.BytesIO(content), "/huge", mtime=3))
+            cmd = "echo " + "z" * case["cmd"]
+            sim.scripts[b"shell:" + cmd.encode()] = [b"ok"]
+            outs.append(sess.call("shell", cmd))
+            for v in sess.monitor.of("C02"):
+                viol.append({"mechanism": v.rule, "detail": v.detail})
+            if sess.sim.parser.pending() and not viol:
+                viol.append({"mechanism": "trailing-bytes", "detail": "%d bytes written after the last complete message" % sess.sim.parser.pending()})
+            pushed = sim.sync_plan.pushed
+            if not viol and (not all(o.ok for o in outs) or not pushed or bytes(pushed[0]["data"]) != content):
+                viol.append({"mechanism": "huge-session", "detail": "device maxdata %d: outcomes %r, device file %s bytes" % (case["maxdata"], [o.brief(50) for o in outs], len(pushed[0]["data"]) if pushed else None)})
+            stats["messages_parsed"] += len(sim.host_log)
+            stats["stream_messages"] += len(sim.host_log)
+            stats["bytes_parsed"] += len(sess.core.written)
+            stats["max_payload"] = max(len(pk.payload) for (_, pk) in sim.host_log)
+            return {"sig": "huge|%s" % case["impl"], "violations": viol[:3], "stats": stats, "sample": {"kind": "huge", "largest_host_payload": stats["max_payload"], "host_packets": len(sim.host_log)}}
+        finally:
+            sess.dispose()
     if case["kind"] == "threads":
         from vlib import sched
         from checks import c06
@@ -161,7 +190,15 @@ def run_case(case):
     # mix
     rng = gen.rng_for("C02m", case["seed"])
     sc = scen.gen_scenario(rng, big=rng.random() < 0.1)
-    sess = gen.make_session(case["impl"], sc["dims"], case["seed"])
+    kw = {}
+    capname = None
+    if rng.random() < 0.3:
+        # a transport that accepts fewer bytes than offered: what reaches the peer must still be well-formed messages
+        capname = rng.choice(["1", "7", "24", "random", "random0"])
+        kw["writecap"] = {"1": 1, "7": 7, "24": 24}.get(capname) or ((lambda call, n, r_: r_.choice([0, 1, r_.randint(0, n), n, n])) if capname == "random0" else (lambda call, n, r_: r_.choice([1, 5, r_.randint(1, max(1, n)), n])))
+        kw["budget"] = 2000000
+        stats["short_write_sessions"] = 1
+    sess = gen.make_session(case["impl"], sc["dims"], case["seed"], **kw)
     r = scen.Runner(sess, sc)
     try:
         res = r.run()
